@@ -34,6 +34,38 @@ CHECKS = {
                 text='Null-PDU world of all accessors and initialisers (no access, return 0); the field identifier stays symbolic '
                      'for every by-identifier entry point and every world with an effect must contradict identifier >= MAX, else a '
                      'concrete identifier is exhibited; legacy entry points must return -EINVAL without any store.', ref='4.11'),
+
+    'C05': dict(cat='proof', tech='abstract interpretation of operation scripts + induction over measured lemmas',
+                text='Hypotheses H1-H5 of the induction in DESIGN.md 4.5 (set/init/get lemmas for every entry point, pairwise disjoint '
+                     'measured write footprints, effects confined to the arguments) are re-established on every run; in addition every '
+                     'ordered pair of writes per format (commute, overwrite, read-after-write, non-interference) and whole '
+                     'init + write-all + rewrite + read-all histories in forward, reverse and seeded orders through mixed generic / '
+                     'dedicated / legacy entry points are interpreted exactly over symbolic values and prior content.', ref='4.5'),
+    'C06': dict(cat='proof', tech='abstract interpretation of the builders for every payload length',
+                text='Both ACF-CAN builders are interpreted for every payload length 0..64 (thorough: every length the 9-bit length '
+                     'field can express) and both variants over symbolic identifier, payload, header and trailing memory on an '
+                     'exact-extent region; the image must equal the reference message; read-back, split sequence and finalise-alone '
+                     'are interpreted as scripts.', ref='4.6'),
+    'C09': dict(cat='proof', tech='abstract interpretation of Avtp_Vss_Pad for every length',
+                text='Avtp_Vss_Pad is interpreted for every message length 12..2044 on an exact-extent symbolic region; exactly the pad '
+                     'octets are zeroed, length/pad fields set, every other bit keeps its entry value; the dedicated length accessors '
+                     'must carry all 9 bits.', ref='4.9'),
+    'C12': dict(cat='proof', tech='abstract interpretation: equality of closed forms legacy vs current + compiler-folded aliases',
+                text='For the five legacy formats and all 84 fields the value stored by the deprecated reader, the image left by the '
+                     'deprecated writer and initialiser are compared bit for bit with the current API over symbolic buffers/values; '
+                     '31 alias macros and 19 layout facts of the packed legacy structs are folded by the compiler and compared.', ref='4.12'),
+    'C13': dict(cat='proof', tech='abstract interpretation of the 15 helpers on LE and BE targets',
+                text='Closed form of every byte-order helper over a symbolic value on a little- and a big-endian target: swap is byte '
+                     'reversal and an involution, the memory image of CpuToBe/CpuToLe through the datalayout is big/little-endian, '
+                     'to-host inverts from-host, and the two preprocessor branches are mirror images.', ref='4.13'),
+    'C14': dict(cat='proof', tech='all C01/C02/C04/C06/C09 obligations re-evaluated on big-endian IR',
+                text='Every obligation of C01, C02, C04, C06, C09 (and the VSS codec checks where registered) is discharged again on IR '
+                     'compiled for powerpc64 (thorough: also 32-bit mips); specs are expressed in wire octets and host values, so holding '
+                     'on both byte orders is the property.', ref='4.14',
+                note=TB + '; powerpc64/mips IR is taken as representative of big-endian hosts; libc headers are replaced by declarations in stubs/libc'),
+    'C17': dict(cat='proof', tech='pairwise equality of measured closed forms across overlay families',
+                text='For each overlay family (common header, ACF common header, stream header, AAF~PCM, full~brief variants) and every '
+                     'pair of views the measured read result and write effect of the shared field must be identical.', ref='4.17'),
 }
 
 PENDING = ['C05', 'C06', 'C07', 'C08', 'C09', 'C10', 'C12', 'C13', 'C14', 'C15', 'C16', 'C17', 'C18', 'C19', 'C20']
